@@ -1,5 +1,8 @@
 """C05 — Max-Sum without damping is exact on acyclic factor graphs."""
+import collections
+
 from .. import gen
+from ..compsim import Observer
 from ..truth import Truth
 from . import common
 
@@ -103,6 +106,54 @@ def _draw(rng, tier):
             "constraints": constraints, "shape": "forest", "cost_class": cls}
 
 
+class Informed(Observer):
+    """On a tree, belief propagation is exact once every directed edge u->v has carried a message
+    sent after u had received an (inductively) informed message from each of its other
+    neighbours.  This observer tracks that condition from the posts and deliveries alone, so a
+    wrong result can be attributed either to a protocol that never propagated the information
+    (some edge never informed) or to the message/selection computations themselves."""
+
+    def __init__(self, neighbors):
+        self.nb = neighbors                          # node -> set of neighbour nodes
+        self.posted = collections.Counter()          # edge -> number of posts
+        self.delivered = collections.Counter()
+        self.first_informed = {}                     # edge -> index of the first informed post
+        self.informed_in = collections.defaultdict(set)   # node -> neighbours it is informed by
+        self.buffered = collections.defaultdict(list)     # receptions before the start of dst
+
+    def on_post(self, sim, src, dst, msg, prio):
+        if prio < 20 or dst not in self.nb.get(src, ()):
+            return                                   # re-injection of a buffered reception
+        e = (src, dst)
+        if e not in self.first_informed and self.nb[src] - {dst} <= self.informed_in[src]:
+            self.first_informed[e] = self.posted[e]
+        self.posted[e] += 1
+
+    def on_deliver(self, sim, src, dst, msg, reinjected):
+        if dst not in self.nb.get(src, ()):
+            return
+        e = (src, dst)
+        if not reinjected:
+            good = e in self.first_informed and self.delivered[e] >= self.first_informed[e]
+            self.delivered[e] += 1
+            if dst not in sim.started:
+                # buffered by the computation until it starts; handled when re-injected
+                self.buffered[dst].append((src, good))
+                return
+        else:
+            for k, (s_, good) in enumerate(self.buffered[dst]):
+                if s_ == src:
+                    del self.buffered[dst][k]
+                    break
+            else:
+                return
+        if good:
+            self.informed_in[dst].add(src)
+
+    def all_informed(self):
+        return all(self.nb[u] <= self.informed_in[u] for u in self.nb)
+
+
 def generate(rng, tier):
     for _ in range(30):
         case = _draw(rng, tier)
@@ -132,7 +183,10 @@ def execute(case, tape):
         return out
     n_nodes = len(case["variables"]) + len(case["constraints"])
     rounds = 2 * n_nodes + ROUNDS_EXTRA
-    sim = common.engine_a(case, tape, max_events=400 * n_nodes * n_nodes + 4000)
+    informed = Informed({})
+    sim = common.engine_a(case, tape, observers=[informed],
+                          max_events=400 * n_nodes * n_nodes + 4000)
+    informed.nb.update({n: set(c.neighbors) for n, c in sim.comps.items()})
     feats["mode"] = sim.config["mode"]
     if case["algo"] == "maxsum":
         connected = [c for c in sim.comps.values() if c.neighbors]
@@ -163,7 +217,10 @@ def execute(case, tape):
     asg = common.assignment(sim)
     out["stats"]["oracle_evaluated"] += 1
     cost_msgs = sim.stats["delivered"]
+    all_informed = informed.all_informed()
+    out["stats"]["all_edges_informed" if all_informed else "some_edge_never_informed"] += 1
     if asg != arg:
+        feats["all_edges_informed"] = all_informed
         wrong = {k: (asg.get(k), arg[k]) for k in arg if asg.get(k) != arg[k]}
         # a variable linked to no factor and without own costs has no preferred value
         oracle = "exact_on_tree"
